@@ -17,3 +17,21 @@ package freelist
 //@   abstract modifies cp.$F
 //@   abstract ensures cp.$F == old(cp.$F)[keyof(blk) := old(cp.$F)[keyof(blk)] + 1]
 //@   abstract ensures err == nil
+
+// ---------------------------------------------------------------------------
+// C16: lock discipline ("guarded by").
+//@ type FreeList
+//@   guarded_by blockPool, outstandingWork : poolLk read poolLk.R
+//@   guarded_by file, writer : flushLock
+
+//@ func (cp *FreeList) flushBlock(blk types.Block) (work types.Work, err error)  property C16
+//@   holds cp.flushLock
+
+//@ func (cp *FreeList) Close() (err error)  property C16
+//@   exclusive Close runs after all users of the freelist have stopped (Store.Close contract, C17)
+
+//@ func (cp *FreeList) ToGC() (path string, err error)  property C16
+//@   unguarded FreeList.file cp.file is only written by ToGC itself, and ToGC is run by one goroutine at a time (the primary GC goroutine, or the upgrade before GC is started)
+
+//@ func (cp *FreeList) Iter() (it *Iterator, err error)  property C16
+//@   unguarded FreeList.file inspection helper used by tests only; not among the operations C16 lists
